@@ -230,13 +230,15 @@ RULES["C14"] = ("replies: generated DAG benches with Requestor queries (0-3 conn
                 "that the broadcast future is re-polled with no sub-future scheduled; oracle: reply sequence = connection list (order, filters, maps), completion stamped after the end of every contributing replier handler, one "
                 "handler run per accepting connection, step() returns Ok; storm: askers issue 3000 consecutive queries per step to 2-4 jittered repliers on 2-8 worker threads (narrow cross-thread windows of the broadcast future "
                 "and task set are crossed thousands of times per run), every reply sequence compared, every query must complete before step() returns Ok; "
+                "taskset: the task set behind every broadcast driven directly (owner thread = broadcast future, 1-3 waker threads = completions incl. late, repeated and stale wake-ups) in rounds of take / discard / partial take with resizes in between: "
+                "yielded sub-tasks = woken sub-tasks, a scheduling after the countdown was armed must notify the parent, discard leaves nothing scheduled, no panic; "
                 "clones: random sequences of clone / connect / map_connect / filter_map_connect on harness-held clones (and clones of clones) of an Output and a Requestor whose sibling clone lives "
                 "inside a model of a running simulation (ST, MT2, MT4), interleaved with events and queries sent by the model; reference model = one shared connection list; "
                 "non-trivial = execution with more than one reply compared (replies) / gated query with several repliers, distinct by (case, executor, completion orders) (gates) / sequence with a connection made through a harness-held clone followed by a send or query (clones)")
-PLAN["C14"] = {"quick": [job("native", "replies", 16, 600), job("native", "gates", 16, 600), job("native", "storm", 16, 600), job("native", "clones", 16, 600), miri("replies", 2, 4, 900), miri("gates", 2, 4, 900)],
+PLAN["C14"] = {"quick": [job("native", "replies", 16, 600), job("native", "gates", 16, 600), job("native", "storm", 16, 600), job("native", "taskset", 16, 600), job("native", "clones", 16, 600), miri("replies", 2, 4, 900), miri("gates", 2, 4, 900), miri("taskset", 4, 8, 900)],
                "thorough": [job("native", "replies", 16, 3000), job("native", "gates", 16, 3000), job("native", "clones", 16, 3000), miri("replies", 8, 16, 3000), miri("gates", 8, 16, 3000),
                             miri("clones", 2, 4, 3000), job("native", "storm", 16, 3000), miri("storm", 4, 8, 3000), job("tsan", "replies", 8, 1800, args=["--scale", "0.05"]), job("tsan", "gates", 8, 1800, args=["--scale", "0.05"]),
-                            job("tsan", "storm", 8, 1800, args=["--scale", "0.02"])],
+                            job("tsan", "storm", 8, 1800, args=["--scale", "0.02"]), job("native", "taskset", 16, 3000), miri("taskset", 8, 32, 3000), job("tsan", "taskset", 8, 1800, args=["--scale", "0.05"])],
                "min_evaluations": {"quick": 500, "thorough": 500},
                "assumptions": COMMON_ASSUMPTIONS + ["connections through clones are made between driver calls, and (every second clones case) by a second thread while the model sends, judged through Release/Acquire counters only",
                                                    "part gates: wakers are only invoked from handler code (executor threads), every gate is eventually opened whatever the schedule, so a stall is a violation"]}
